@@ -61,11 +61,22 @@ func (m *Machine) freshVar(prefix string, w uint8) *Term {
 	m.ndCount++
 	t := m.tt.Var(name, w)
 	m.ndVars = append(m.ndVars, t)
+	m.pathVars = append(m.pathVars, t)
 	return t
 }
 
 func (m *Machine) nondet(k types.BasicKind) value {
 	w := kindWidth(k)
+	if m.opts.Fixed != nil {
+		// concrete mode (selftest / debugging): values come from a fixed vector
+		var v uint64
+		if m.fixedPos < len(m.opts.Fixed) {
+			v = m.opts.Fixed[m.fixedPos]
+		}
+		m.fixedPos++
+		m.ndLog = append(m.ndLog, ndEntry{conc: v, w: w, kind: "fixed"})
+		return fromBits(k, v&maskB(w))
+	}
 	var t *Term
 	if w == 0 {
 		t = m.freshVar("p", 0)
@@ -108,6 +119,15 @@ func init() {
 	}
 	harnessAPI["nondetChoice"] = func(fr *frame, args []value) value {
 		n := int(fr.cint(args[0]))
+		if fr.m.opts.Fixed != nil {
+			var v uint64
+			if fr.m.fixedPos < len(fr.m.opts.Fixed) {
+				v = fr.m.opts.Fixed[fr.m.fixedPos]
+			}
+			fr.m.fixedPos++
+			fr.m.ndLog = append(fr.m.ndLog, ndEntry{conc: v, w: 64, kind: "choice"})
+			return int(v)
+		}
 		k := fr.m.choose(n)
 		fr.m.ndLog = append(fr.m.ndLog, ndEntry{conc: uint64(k), w: 64, kind: "choice"})
 		return k
@@ -495,6 +515,12 @@ func (m *Machine) assert(fr *frame, c value, label string) {
 		}
 	case sym:
 		t := c.t
+		if m.dpos < len(m.trail) {
+			// replaying a prefix: the ancestor path that first reached this assertion (with the
+			// same path condition) has already discharged it
+			m.assumeTerm(t)
+			return
+		}
 		if m.evalTerm(t) == 0 {
 			// the witness model itself violates the assertion
 			m.violation(fr, "assert", label, "")
